@@ -62,7 +62,7 @@ type Step struct {
 
 type Case struct {
 	NPages int    `json:"npages"`
-	File   string `json:"file"` // ok | missing | truncated | wrongext
+	File   string `json:"file"`            // ok | missing | truncated | wrongext
 	Blank  []int  `json:"blank,omitempty"` // 1-based pages without any content (never all of them)
 	Steps  []Step `json:"steps"`
 }
@@ -72,6 +72,9 @@ func init() { vr.Register("tree", checkCase) }
 var words = []string{"alpha", "bravo", "charlie", "delta", "echo", "foxtrot", "golf", "hotel"}
 
 func marker(p int, which string) string { return words[p-1] + which } // p is 1-based
+
+// pageWidth: every page has its own width, so that page-level metadata tells which source page it describes.
+func pageWidth(p int) float64 { return float64(612 - 6*p) }
 
 func (c Case) blank() map[int]bool {
 	m := map[int]bool{}
@@ -84,7 +87,7 @@ func (c Case) blank() map[int]bool {
 func buildPDF(n int, blank map[int]bool) []byte {
 	doc := pdfw.Doc{Fonts: []pdfw.FontSpec{{Res: "F1", Kind: "t1win", Base: "Helvetica"}}}
 	for p := 1; p <= n; p++ {
-		pg := pdfw.Page{ID: p, MediaBox: [4]float64{0, 0, 612, 792}}
+		pg := pdfw.Page{ID: p, MediaBox: [4]float64{0, 0, pageWidth(p), 792}}
 		if blank[p] {
 			doc.Pages = append(doc.Pages, pg)
 			continue
@@ -272,10 +275,11 @@ func run(e *tabula.Extractor, op string) result {
 		type pg struct {
 			Number int
 			Text   string
+			Width  float64
 		}
 		var out []pg
 		for _, p := range d.Pages {
-			out = append(out, pg{p.Number, p.ExtractText()})
+			out = append(out, pg{p.Number, p.ExtractText(), p.Width})
 		}
 		return result{false, out}
 	case "chunks":
@@ -358,6 +362,7 @@ func groundTruth(op string, r result, selAll []int, n int, blank map[int]bool) e
 		var pgs []struct {
 			Number int
 			Text   string
+			Width  float64
 		}
 		_ = json.Unmarshal(js, &pgs)
 		if len(blank) > 0 {
@@ -387,6 +392,9 @@ func groundTruth(op string, r result, selAll []int, n int, blank map[int]bool) e
 			}
 			if pg.Number != sel[k] {
 				return fmt.Errorf("Document().Pages[%d].Number = %d but its text is that of source page %d", k, pg.Number, sel[k])
+			}
+			if pg.Width != pageWidth(sel[k]) {
+				return fmt.Errorf("Document().Pages[%d] (source page %d) reports width %g, the page is %g wide", k, sel[k], pg.Width, pageWidth(sel[k]))
 			}
 		}
 	case "chunks":
@@ -629,8 +637,11 @@ func genCall(t *rapid.T, n int) Call {
 	case "range":
 		a := rapid.IntRange(1, n).Draw(t, "a")
 		b := rapid.IntRange(1, n).Draw(t, "b")
-		if rapid.IntRange(0, 11).Draw(t, "oorRange") == 0 {
+		switch rapid.IntRange(0, 11).Draw(t, "oorRange") {
+		case 0:
 			b = n + rapid.IntRange(1, 3).Draw(t, "over")
+		case 1:
+			a = rapid.SampledFrom([]int{0, -1, -3}).Draw(t, "under") // a range that starts in front of the document
 		}
 		return Call{Kind: "range", A: a, B: b}
 	}
